@@ -1069,6 +1069,17 @@ fn apply_binary_operation(
 // `eq` returns a path to the values in `lhs` and `rhs` that differ, and the
 // type that differ, if `lhs` and `rhs` are of different types.
 fn eq(lhs: &Value, rhs: &Value) -> StdResult<bool, (String, String, String)> {
+    eq_next(lhs, rhs, &mut vec![])
+}
+
+// `eq_next` compares `lhs` and `rhs`, where `ancestors` identifies the pairs
+// of containers that are currently being compared. A pair that is reached
+// again from within itself (which can only happen for containers that contain
+// themselves) is taken to be equal, so that the comparison is decided by the
+// remaining items instead of recursing forever.
+fn eq_next(lhs: &Value, rhs: &Value, ancestors: &mut Vec<(usize, usize)>)
+    -> StdResult<bool, (String, String, String)>
+{
     match (lhs, rhs) {
         (Value::Null, Value::Null) =>
             Ok(true),
@@ -1090,6 +1101,11 @@ fn eq(lhs: &Value, rhs: &Value) -> StdResult<bool, (String, String, String)> {
             // We compare snapshots of the items so that no lock is held
             // while recursing; `xs` or `ys` may be reachable from their own
             // items.
+            let id = (Arc::as_ptr(xs) as usize, Arc::as_ptr(ys) as usize);
+            if ancestors.contains(&id) {
+                return Ok(true);
+            }
+
             let xs = lock_deref!(xs).clone();
             let ys = lock_deref!(ys).clone();
 
@@ -1097,11 +1113,12 @@ fn eq(lhs: &Value, rhs: &Value) -> StdResult<bool, (String, String, String)> {
                 return Ok(false);
             }
 
+            ancestors.push(id);
             for (i, x) in xs.iter().enumerate() {
                 let y = &ys[i];
 
                 let equal =
-                    match eq(&x.v, &y.v) {
+                    match eq_next(&x.v, &y.v, ancestors) {
                         Ok(v) => v,
                         Err((path, a, b)) => return Err((
                             format!("[{i}]{path}"),
@@ -1111,9 +1128,12 @@ fn eq(lhs: &Value, rhs: &Value) -> StdResult<bool, (String, String, String)> {
                     };
 
                 if !equal {
+                    ancestors.pop();
+
                     return Ok(false);
                 }
             }
+            ancestors.pop();
 
             Ok(true)
         },
@@ -1126,6 +1146,11 @@ fn eq(lhs: &Value, rhs: &Value) -> StdResult<bool, (String, String, String)> {
             // We compare snapshots of the properties so that no lock is held
             // while recursing; `xs` or `ys` may be reachable from their own
             // properties.
+            let id = (Arc::as_ptr(xs) as usize, Arc::as_ptr(ys) as usize);
+            if ancestors.contains(&id) {
+                return Ok(true);
+            }
+
             let xs = lock_deref!(xs).clone();
             let ys = lock_deref!(ys).clone();
 
@@ -1133,16 +1158,19 @@ fn eq(lhs: &Value, rhs: &Value) -> StdResult<bool, (String, String, String)> {
                 return Ok(false);
             }
 
+            ancestors.push(id);
             for (k, x) in &xs {
                 let y =
                     if let Some(y) = ys.get(k) {
                         y
                     } else {
+                        ancestors.pop();
+
                         return Ok(false);
                     };
 
                 let equal =
-                    match eq(&x.v, &y.v) {
+                    match eq_next(&x.v, &y.v, ancestors) {
                         Ok(v) => v,
                         Err((path, a, b)) => return Err((
                             format!(".'{k}'{path}"),
@@ -1152,9 +1180,12 @@ fn eq(lhs: &Value, rhs: &Value) -> StdResult<bool, (String, String, String)> {
                     };
 
                 if !equal {
+                    ancestors.pop();
+
                     return Ok(false);
                 }
             }
+            ancestors.pop();
 
             Ok(true)
         },
